@@ -177,6 +177,7 @@ bool StepScript(InterpreterEnv& env)
 
         // Update environment
         env.curr_op_seq++;
+        ++env.opcode_pos;
         return true;
     }
 
